@@ -37,10 +37,9 @@ FAMILY_RULES = {
              "fuse_pad_into_conv_rule", "normalize_pad_format_conv_rule", "remove_optional_bias_from_conv_rule",
              "fuse_batchnorm_into_conv_transpose_rule", "remove_optional_bias_from_conv_transpose_rule"],
     "scatter": ["no_op_static_scatter_nd_rule", "no_op_dynamic_scatter_nd_rule"],
-    "conv_integer": ["fuse_pad_into_conv_integer_rule", "normalize_pad_format_conv_integer_rule"],
+    "conv_integer": ["fuse_pad_into_conv_integer_rule", "normalize_pad_format_conv_integer_rule", "remove_optional_bias_from_qlinear_conv_rule"],
 }
 NOT_ENCODED_RULES = {
-    "remove_optional_bias_from_qlinear_conv_rule": "QLinearConv not encoded",
 }
 
 
